@@ -22,7 +22,7 @@ const c17Slot = 35 // ms between scripted completions
 var c17seq int64
 
 // run one of B/F/I against n scripted servers; v[i] in {ok<r>, svc, lost, slow}; order = completion order
-func c17Run(op string, v []string, order []int) (obs string, fails []string) {
+func c17Run(op string, v []string, order []int, sticky bool) (obs string, fails []string) {
 	uid := atomic.AddInt64(&c17seq, 1)
 	n := len(v)
 	rank := make([]int, n)
@@ -53,9 +53,15 @@ func c17Run(op string, v []string, order []int) (obs string, fails []string) {
 	opt := client.DefaultOption
 	opt.SerializeType = protocol.JSON
 	opt.Heartbeat = false
+	opt.Sticky = sticky
 	xc := client.NewXClient("Svc", client.Failfast, client.RandomSelect, d, opt)
 	defer xc.Close()
 	ctx := context.Background()
+	if sticky {
+		// an earlier ordinary call has made one of the servers the client's sticky server
+		var w int
+		xc.Call(ctx, "warmup", 1, &w)
+	}
 	if hasSlow {
 		// slow servers complete last, with the deadline error; everyone else has long answered
 		var cancel context.CancelFunc
@@ -168,12 +174,12 @@ func runC17(r *common.Rand, tier string, o *common.Out, replay string) {
 	}
 	if replay != "" {
 		op, v, order := parse(replay)
-		obs, fails := c17Run(op, v, order)
+		obs, fails := c17Run(strings.TrimSuffix(op, "s"), v, order, strings.HasSuffix(op, "s"))
 		for _, f := range fails {
 			p := strings.SplitN(f, "|", 2)
 			o.Fail("replay", p[0], p[1], replay)
 		}
-		o.Case("replay", replay, obs, true)
+		o.Case("replay", strings.Replace(replay, op+" ", strings.TrimSuffix(op, "s")+" ", 1), obs, true)
 		return
 	}
 	outs := []string{"ok", "svc", "lost", "slow"}
@@ -222,6 +228,12 @@ func runC17(r *common.Rand, tier string, o *common.Out, replay string) {
 				for _, op := range []string{"B", "F", "I"} {
 					jobs = append(jobs, job{op, v, perm})
 				}
+				if n >= 2 && (code+pi)%2 == 0 {
+					// the same with the Sticky option and a sticky server established by an earlier call
+					for _, op := range []string{"Fs", "Is"} {
+						jobs = append(jobs, job{op, v, perm})
+					}
+				}
 			}
 		}
 	}
@@ -234,7 +246,7 @@ func runC17(r *common.Rand, tier string, o *common.Out, replay string) {
 	for i := range jobs {
 		sem <- struct{}{}
 		go func(i int) {
-			ob, fl := c17Run(jobs[i].op, jobs[i].v, jobs[i].order)
+			ob, fl := c17Run(strings.TrimSuffix(jobs[i].op, "s"), jobs[i].v, jobs[i].order, strings.HasSuffix(jobs[i].op, "s"))
 			res[i] = resT{ob, fl}
 			<-sem
 		}(i)
@@ -254,7 +266,7 @@ func runC17(r *common.Rand, tier string, o *common.Out, replay string) {
 			p := strings.SplitN(f, "|", 2)
 			o.Fail(id, p[0], p[1], line)
 		}
-		o.Case(id, line, res[i].obs, len(j.v) >= 2)
+		o.Case(id, fmt.Sprintf("%s %s %s", strings.TrimSuffix(j.op, "s"), strings.Join(j.v, ","), strings.Join(os, ",")), res[i].obs, len(j.v) >= 2)
 		o.Count("op=" + j.op)
 		o.Count(fmt.Sprintf("servers=%d", len(j.v)))
 	}
